@@ -56,7 +56,7 @@ Avail(w) == w.cur = {} /\ w.mq = <<>>               \* WorkerProperties::is_avai
 Working(w) == ~Avail(w)
 
 InitMon == [dev |-> {}, exclBad |-> FALSE, fifoBad |-> FALSE, lastStart |-> [k \in Keys |-> 0], hook |-> 0, hookBad |-> FALSE,
-            lost2 |-> FALSE, panic |-> FALSE, qbBad |-> FALSE, idleBad |-> FALSE, rrSeen |-> {}, rrN |-> 0, rrBad |-> FALSE]
+            lost2 |-> FALSE, panic |-> FALSE, qbBad |-> FALSE, idleBad |-> FALSE, rrSeen |-> {}, rrN |-> 0, rrBad |-> FALSE, ans |-> <<>>]
 \* the handler record: factory state + scratch fields (fx, dev, born) that are empty between steps
 InitF(n, lim, mode, lb, lbon, fq) ==
   [q |-> <<>>, pool |-> [w \in 0 .. (n - 1) |-> NewWorker(w + 1, IF fq THEN -1 ELSE lim, IF fq THEN "none" ELSE mode)],
@@ -296,18 +296,36 @@ Calc(S) ==
   ELSE DiscAll([S EXCEPT !.q = SelectSeq(@, LAMBDA x : ~Expired(x))], SelectSeq(S.q, LAMBDA x : Expired(x)))
 
 \* handle_supervisor_evt for a terminated / failed actor
-HandleSup(S, inc, ord) ==
+\* retire = TRUE is the repaired code (a draining slot without queued jobs is retired instead of
+\* being given a replacement); retire = FALSE is the code as found (Dev_DrainingSlotReplaced)
+HandleSupX(S, inc, ord, retire) ==
   LET ws == {w \in DOMAIN S.pool : S.pool[w].inc = inc} IN
   IF ws = {} THEN S
   ELSE LET w == CHOOSE w \in ws : TRUE IN
-       IF FixRetire /\ S.pool[w].dr /\ S.pool[w].mq = <<>>
+       IF retire /\ S.pool[w].dr /\ S.pool[w].mq = <<>>
          THEN PoolDel(S, w)                                  \* repaired code: the slot is retired
          ELSE LET ni == S.ni + 1
-                  S0 == IF S.pool[w].dr THEN [S EXCEPT !.dev = @ \cup {"DrainingSlotReplaced"}] ELSE S   \* Dev_DrainingSlotReplaced
+                  \* Dev_DrainingSlotReplaced: the replacement will hold no job, so nothing will ever retire it
+                  S0 == IF S.pool[w].dr /\ S.pool[w].mq = <<>> THEN [S EXCEPT !.dev = @ \cup {"DrainingSlotReplaced"}] ELSE S
                   S1 == AddFx([S0 EXCEPT !.ni = ni, !.born = @ \cup {ni}], Fx("spawn", w, ni, ""))
                   S2 == ReplaceWorker(S1, w, ni)
                   S3 == TryRouteNext(S2, w, ord)
               IN IF Avail(S3.pool[w]) THEN AvailChange(S3, w, TRUE) ELSE S3
+
+\* reply_with_available_capacity
+RECURSIVE SumSeq(_)
+SumSeq(xs) == IF xs = <<>> THEN 0 ELSE Head(xs) + SumSeq(Tail(xs))
+SatSub(a, b) == IF a > b THEN a - b ELSE 0
+SetSeq(T) == LET RECURSIVE Go(_) Go(U) == IF U = {} THEN <<>> ELSE LET x == CHOOSE x \in U : TRUE IN <<x>> \o Go(U \ {x}) IN Go(T)
+Capacity(S) ==
+  LET wa == Cardinality({w \in DOMAIN S.pool : ~S.pool[w].dr /\ Avail(S.pool[w])}) IN
+  IF S.lim < 0 THEN wa
+  ELSE wa + (IF FQ THEN SatSub(S.lim, Len(S.q))
+             ELSE SumSeq([i \in 1 .. Len(SetSeq({w \in DOMAIN S.pool : ~S.pool[w].dr})) |->
+                            SatSub(S.lim, Len(S.pool[SetSeq({w \in DOMAIN S.pool : ~S.pool[w].dr})[i]].mq))]))
+Answer(S, v) == AddFx(S, Fx("ans", v, 0, ""))
+
+HandleSup(S, inc, ord) == HandleSupX(S, inc, ord, FixRetire)
 
 \* the tail of `handle`: is_drained
 EndOfHandle(S) ==
@@ -324,6 +342,9 @@ Handle(S, m, ord) ==
       [] m.m = "drain" -> AddFx([S EXCEPT !.drain = 1], Fx("hook", 0, 0, "draining"))
       [] m.m = "update" -> UpdateSettings(S, m.a, m.c, m.b, ord)
       [] m.m = "calc" -> Calc(S)
+      [] m.m = "q_depth" -> Answer(S, Len(S.q))
+      [] m.m = "q_active" -> Answer(S, Cardinality({w \in DOMAIN S.pool : Working(S.pool[w])}))
+      [] m.m = "q_cap" -> Answer(S, Capacity(S))
       [] OTHER -> S)
 
 Perms == {p \in [1 .. MaxW -> Wids] : \A i, k \in 1 .. MaxW : i # k => p[i] # p[k]}
@@ -358,6 +379,7 @@ ApplyFx(W, fx) ==
                     [W EXCEPT !.mon.hookBad = @ \/ ~((e.c = "draining" /\ W.mon.hook \in {1, 2}) \/ (e.c = "stopped" /\ W.mon.hook \in {1, 2})),
                               !.mon.hook = IF e.c = "draining" THEN 2 ELSE 3]
                [] e.e = "stopself" -> [W EXCEPT !.stopreq = TRUE]
+               [] e.e = "ans" -> [W EXCEPT !.mon.ans = Append(@, e.a)]
                [] OTHER -> W
        IN ApplyFx(W1, Tail(fx))
 
